@@ -60,6 +60,13 @@ func (r *Result) Eval(n int64) {
 	r.mu.Unlock()
 }
 
+// Evals returns the number of evaluated cases so far.
+func (r *Result) Evals() int64 {
+	r.mu.Lock()
+	defer r.mu.Unlock()
+	return r.Evaluations
+}
+
 // Class records a case of a non-trivial class.
 func (r *Result) Class(c string) {
 	r.mu.Lock()
